@@ -293,6 +293,12 @@ func allInputs() []Input {
 	add("map:a=empty-str", `(sorted-map "a" "")`, vMap(sk("a"), vStr("")))
 	add("map:a=sym-a,b=1", `(sorted-map "a" 'a "b" 1)`, vMap(sk("a"), vSym("a"), sk("b"), vInt(1)))
 	add("kwmap:a=1", `(sorted-map :a 1)`, vMap(vSym(":a"), vInt(1)))
+	// both sides of the derived-type thresholds (age >= 0, adult >= 2, senior >= 3)
+	add("arr:3", "(vector 3)", vArr(vInt(3)))
+	add("map:a=3", `(sorted-map "a" 3)`, vMap(sk("a"), vInt(3)))
+	add("map:a=3,b=1", `(sorted-map "a" 3 "b" 1)`, vMap(sk("a"), vInt(3), sk("b"), vInt(1)))
+	add("map:a=3,b=3", `(sorted-map "a" 3 "b" 3)`, vMap(sk("a"), vInt(3), sk("b"), vInt(3)))
+	add("map:a=-1", `(sorted-map "a" -1)`, vMap(sk("a"), vInt(-1)))
 
 	// the same maps symbol-keyed
 	symTwin := func(name, src string, v *Val, twin string) {
